@@ -55,7 +55,7 @@ func propSpecs() map[string]*PropSpec {
 	quickBounds := func(tier string) Bounds {
 		b := DefaultBounds
 		if tier == "thorough" {
-			b.SliceLen, b.SpareCap, b.MapLen, b.StrLen, b.PtrDepth, b.Unwind = 3, 2, 3, 3, 2, 12
+			b.SliceLen, b.SpareCap, b.MapLen, b.StrLen, b.PtrDepth, b.Unwind = 3, 2, 2, 3, 2, 12
 		}
 		return b
 	}
